@@ -862,6 +862,31 @@ def _fixed_ops(tier):
     for kind in ops.DIST:
         a = ops.gen_dist_fit(g, kind, D=3 if kind != 'bingham' else 2)
         out.append({'op': kind + '.fit', 'a': a, 'fault': None})
+    # one operation of each stateless family that keeps objects or global
+    # state around calls: aligners (shared objects), GEV (error paths),
+    # masks, metrics
+    rng = np.random.RandomState(20203)
+    g = ops.G(rng, [3], False)
+    for spec in ({'kind': 'dhtv', 'stft_size': 16, 'segment_start': 2,
+                  'segment_width': 3, 'segment_shift': 1, 'main_iterations': 2,
+                  'sub_iterations': 1, 'similarity_metric': 'cos',
+                  'algorithm': 'greedy'},
+                 {'kind': 'greedy', 'similarity_metric': 'euclidean',
+                  'algorithm': 'optimal'}):
+        out.append({'op': 'pa.aligner', 'fault': None, 'a': {
+            'aligner': spec, 'method': 'call',
+            'mask': g.arr('affiliation', [2, 9, 6], reuse=False)}})
+    Dq, Fq, pair = ops._psd_pair(g)
+    out.append({'op': 'bf.get_bf_vector', 'fault': None,
+                'a': dict(pair, name='gev+ban', kw={})})
+    out.append({'op': 'bf.get_bf_vector', 'fault': None,
+                'a': dict(pair, name='rank1_gev+mvdr_souden', kw={})})
+    a = ops.ENTRIES['metric'].gen(g)
+    a['which'] = 'input_sxr_dict'
+    out.append({'op': 'metric', 'a': a, 'fault': None})
+    a = ops.ENTRIES['mask'].gen(g)
+    a['which'] = 'wiener_like'
+    out.append({'op': 'mask', 'a': a, 'fault': None})
     if tier == 'thorough':
         seen = set()
         rng = np.random.RandomState(20202)
